@@ -106,6 +106,7 @@ theorem authLdap_ok {w : World} {target pw : Nat} {sl : Bool} {t : Token}
         t = ⟨target, .unixBind target⟩ ∧
         (authLdap w target pw sl).delayed = if a.unixNeedsUpgrade then [(.unixPwUpgrade, target, pw)] else []) := by
   unfold authLdap at h ⊢
+  simp only [anonymousTestIsUuidEq, Bool.true_and] at h ⊢
   by_cases ht : target = w.anonymous
   · left
     subst ht
@@ -147,12 +148,29 @@ theorem authLdap_flag_off {w : World} {target pw : Nat} {sl : Bool}
     (hf : w.allowUnixPwBind = false) (ht : target ≠ w.anonymous) :
     (authLdap w target pw sl).res = .ok none ∧ (authLdap w target pw sl).delayed = [] := by
   have hne : (target == w.anonymous) = false := by simpa using ht
-  simp [authLdap, hne, unixFlagGuard, hf]
+  simp [authLdap, anonymousTestIsUuidEq, hne, unixFlagGuard, hf]
+
+theorem tokenGate_delayed (r : Except Err Ident) (t : Token) : (tokenGate r t).delayed = [] := by
+  cases r <;> rfl
+
+theorem tokenGate_ok {r : Except Err Ident} {t t' : Token} (h : (tokenGate r t).res = .ok (some t')) :
+    t' = t ∧ ∃ id, r = .ok id := by
+  cases r with
+  | error e => simp [tokenGate] at h
+  | ok id => simp [tokenGate] at h; exact ⟨h.symm, id, rfl⟩
+
+theorem not_uatExpired {w : World} {e : Option Nat} (h : uatExpired w e = false) :
+    ∀ x, e = some x → w.ct < x := by
+  intro x hx; subst hx; simp [uatExpired] at h; omega
+
+theorem not_apitExpired {w : World} {e : Option Nat} (h : apitExpired w e = false) :
+    ∀ x, e = some x → w.ct < x := by
+  intro x hx; subst hx; simp [apitExpired] at h; omega
 
 theorem tokenAuthLdap_delayed (w : World) (pw : Nat) : (tokenAuthLdap w pw).delayed = [] := by
   unfold tokenAuthLdap
   repeat' split
-  all_goals rfl
+  all_goals first | rfl | exact tokenGate_delayed _ _
 
 theorem applicationAuthLdap_delayed (w : World) (n : List Char) (u pw : Nat) :
     (applicationAuthLdap w n u pw).delayed = [] := by
@@ -162,45 +180,42 @@ theorem applicationAuthLdap_delayed (w : World) (n : List Char) (u pw : Nat) :
   · split <;> rfl
 
 /-- What a successful `token_auth_ldap` means: the secret verifies as a token of the domain, is
-not expired, and the session carries exactly that token. -/
+not expired, the identity builder of its kind accepts it now (account window, stored session),
+and the session carries exactly that token. -/
 theorem tokenAuthLdap_ok {w : World} {pw : Nat} {t : Token}
     (h : (tokenAuthLdap w pw).res = .ok (some t)) :
     ((∃ a s e pu, lookup pw w.tokens = some (.uat a s e pu) ∧ t = ⟨a, .userAuthToken a s e pu⟩ ∧
-        (∀ x, e = some x → w.ct < x)) ∨
+        (∀ x, e = some x → w.ct < x) ∧ ∃ id, processUat w a s pu = .ok id) ∨
      (∃ a ti i e pu, lookup pw w.tokens = some (.apit a ti i e pu) ∧ t = ⟨a, .apiToken a ti i e pu⟩ ∧
-        (∀ x, e = some x → w.ct < x) ∧ (w.acct a).isSome = true)) := by
+        (∀ x, e = some x → w.ct < x) ∧ (w.acct a).isSome = true ∧
+        ∃ id, processApit w a ti i pu = .ok id)) := by
   unfold tokenAuthLdap at h
   cases hl : lookup pw w.tokens with
   | none => simp [hl] at h
   | some info =>
     cases info with
     | uat a s e pu =>
-      simp only [hl] at h
-      cases e with
-      | none =>
-        simp at h
-        exact Or.inl ⟨a, s, none, pu, rfl, h.symm, by simp⟩
-      | some x =>
-        by_cases hx : x ≤ w.ct
-        · simp [hx] at h
-        · simp [hx] at h
-          refine Or.inl ⟨a, s, some x, pu, rfl, h.symm, ?_⟩
-          intro y hy; cases hy; omega
+      simp only [hl, tokenBindValidatesUat, if_true] at h
+      cases he : uatExpired w e with
+      | true => simp [he] at h
+      | false =>
+        simp only [he, Bool.false_eq_true, if_false] at h
+        obtain ⟨h1, id, h2⟩ := tokenGate_ok h
+        rw [mkSession_uat] at h1
+        exact Or.inl ⟨a, s, e, pu, rfl, h1, not_uatExpired he, id, h2⟩
     | apit a ti i e pu =>
-      simp only [hl] at h
-      cases hacc : w.acct a with
-      | none => cases e <;> simp [hacc] at h <;> (try split at h) <;> simp at h
-      | some acc =>
-        cases e with
-        | none =>
-          simp [hacc] at h
-          exact Or.inr ⟨a, ti, i, none, pu, rfl, h.symm, by simp, by simp [hacc]⟩
-        | some x =>
-          by_cases hx : w.ct ≥ x
-          · simp [hx] at h
-          · simp [hx, hacc] at h
-            refine Or.inr ⟨a, ti, i, some x, pu, rfl, h.symm, ?_, by simp [hacc]⟩
-            intro y hy; cases hy; omega
+      simp only [hl, tokenBindValidatesApit, if_true] at h
+      cases he : apitExpired w e with
+      | true => simp [he] at h
+      | false =>
+        simp only [he, Bool.false_eq_true, if_false] at h
+        cases hacc : w.acct a with
+        | none => simp [hacc] at h
+        | some acc =>
+          simp only [hacc] at h
+          obtain ⟨h1, id, h2⟩ := tokenGate_ok h
+          rw [mkSession_apit] at h1
+          exact Or.inr ⟨a, ti, i, e, pu, rfl, h1, not_apitExpired he, by simp [hacc], id, h2⟩
 
 /-- What a successful `application_auth_ldap` means. -/
 theorem applicationAuthLdap_ok {w : World} {appName : List Char} {usr pw : Nat} {t : Token}
